@@ -56,6 +56,8 @@ def run(ctx):
         elif head:
             m = re.search(r"items=(\d+)", head[0]); items += int(m.group(1)) if m else 0
             m = re.search(r"early_with_overlapping_wake=(\d+)", head[0]); overlap += int(m.group(1)) if m else 0
+        else:
+            ctx.violation("group harness died without a verdict (exit status %s): the library trapped or crashed: %s" % (rc, " ".join(cmd[1:])), {"cmd": cmd}, signature="group:crash")
         paths.append(path)
     if overlap:
         ctx.violation("%d notification(s) started before work entered before their registration had left, each registered while another wake of the group was in flight" % overlap,
